@@ -54,7 +54,7 @@ def deadline_passed():
 
 
 class World(object):
-    def __init__(self):
+    def __init__(self, debug=False):
         from clastic import Application, Middleware, GET, POST, Route
         from clastic.errors import NotFound
         from werkzeug.wrappers import Response
@@ -163,9 +163,9 @@ class World(object):
                                 ('/boom', boom), POST('/p', lambda: Response('p')), ('/d/<x:int>', ep),
                                 GET('/q/<x>', ep), POST('/q/<x>', second_q), ('/docs/<rest*>', docs), ('/jsonp', ep_jsonp, jsonp_render), GET('/tab', ep_tab_get, tab_render), POST('/tab', ep_tab_post, tab_render),
                                 Route('/ck', ep_ck, middlewares=[SignedCookieMiddleware(secret_key=b'c12-fixed-key')])],
-                               middlewares=[Stamp(), PerReq()])
+                               middlewares=[Stamp(), PerReq()], debug=debug)
 
-        self.app2 = App([GET('/z/<x>', ep)], middlewares=[Stamp(), PerReq()])
+        self.app2 = App([GET('/z/<x>', ep)], middlewares=[Stamp(), PerReq()], debug=debug)
 
     def request_for(self, kind, tok):
         q = 'v=' + tok
@@ -182,6 +182,8 @@ class World(object):
             return ('/ck', 'GET', q + '&op=login', h)
         if kind == 'cklogout':
             return ('/ck', 'GET', q + '&op=logout', h)
+        if kind == 'exch':
+            return ('/boom', 'GET', q, dict(h, Accept='text/html'))
         if kind == 'e404h':
             return ('/zz/' + tok, 'GET', q, dict(h, Accept='text/html'))
         if kind == 'e405j':
@@ -405,6 +407,110 @@ def explore_cold(acc, kinds, bound):
     return st
 
 
+# ---- cold *process* executions -----------------------------------------------------------------------------------------
+# Every execution runs in a freshly started interpreter (debug application, no warm-up): what clastic sets up once per
+# process on first use (lazily registered templates, module-level caches) is inside the explored window.  The parent
+# drives the same depth-first enumeration as mc/sched.explore; the child replays one choice prefix and reports back.
+COLD_PROCESS_PAIRS = [('exch', 'e404h'), ('e404h', 'exch')]
+CP_SPLIT = 16
+
+
+def child_main():
+    import json
+    import sys
+    spec = json.load(sys.stdin)
+    common.setup_repo()
+    w = World(debug=True)
+    repo = common.REPO + '/clastic/'
+    here = os.path.abspath(__file__).replace('.pyc', '.py')
+
+    def pred(fn):
+        return fn.startswith(repo) or fn.startswith('<sinter generated') or fn == here
+    sched.instrument(sched.collect_codes(pred))
+    kinds = spec['kinds']
+    toks = spec.get('toks') or ['t%dq' % (i + 1) + 'xyz'[i % 3] for i in range(len(kinds))]
+    bodies = [(lambda k=k, t=t: w.serve(k, t)) for k, t in zip(kinds, toks)]
+    rec = spec.get('recorded')
+    if rec is not None:
+        rec = [tuple(x) if isinstance(x, list) else x for x in rec]
+    gc.disable()
+    run, results = sched.run_once(bodies, spec['prefix'], rec, bound=spec['bound'], timeout=60.0)
+    import re
+
+    def norm(r):
+        # the debug pages print the wall-clock time, object addresses and the thread: not the request's business
+        t = repr(r)
+        t = re.sub(r'\d{4}-\d\d-\d\d \d\d:\d\d:\d\d(\.\d+)?', 'TIMESTAMP', t)
+        t = re.sub(r'0x[0-9a-fA-F]{6,}', '0xADDR', t)
+        t = re.sub(r'Thread-\d+ \([a-z_]+\)|Thread-\d+', 'THREAD', t)
+        return t
+    json.dump({'choices': run.choices, 'widths': run.widths, 'kinds': run.kinds, 'pids': run.pids, 'npoints': run.npoints,
+               'results': [norm(r) for r in results]}, sys.stdout)
+
+
+def run_child(kinds, prefix, recorded, bound, toks=None):
+    import json
+    import subprocess
+    import sys
+    verif = os.path.dirname(os.path.dirname(os.path.abspath(__file__)))
+    code = 'import sys; sys.path.insert(0, %r); from props import c12; c12.child_main()' % verif
+    p = subprocess.run([sys.executable, '-c', code], input=json.dumps({'kinds': list(kinds), 'prefix': prefix, 'recorded': recorded,
+                                                                       'bound': bound, 'toks': toks}).encode('utf-8'),
+                       stdout=subprocess.PIPE, stderr=subprocess.PIPE, env=dict(os.environ, PYTHONHASHSEED='0'), timeout=180)
+    if p.returncode != 0:
+        raise common.InternalError('cold-process child failed: %s' % p.stderr.decode('utf-8', 'replace')[-800:])
+    return json.loads(p.stdout.decode('utf-8'))
+
+
+def explore_cold_process(acc, kinds, bound, part):
+    toks = ['t%dq' % (i + 1) + 'xyz'[i % 3] for i in range(len(kinds))]
+    seq = [run_child([k], [], None, 0, [t])['results'][0] for k, t in zip(kinds, toks)]
+    stack = [([], None, 0)]
+    execs = 0
+    capped = False
+    while stack:
+        prefix, recorded, used = stack.pop()
+        out = run_child(kinds, prefix, recorded, bound)
+        execs += 1
+        acc.evaluated += 1
+        acc.transitions += out['npoints']
+        acc.validated += len(kinds)
+        acc.add('nontrivial')
+        for i, (r, sres) in enumerate(zip(out['results'], seq)):
+            if r != sres:
+                first = next((j for j, c in enumerate(out['choices']) if c), None)
+                acc.violation('C12:interference:cold-process:%s' % kinds[i],
+                              'freshly started process, threads %r: thread %d (%s) got %s, alone it gets %s; first deviation at %r'
+                              % (kinds, i, kinds[i], r[:300], sres[:300], out['pids'][first] if first is not None else None),
+                              {'kinds': list(kinds), 'bound': bound, 'choices': out['choices'], 'cold_process': True})
+                break
+        if execs % 16 == 0 and deadline_passed():
+            capped = True
+            break
+        for i in range(len(prefix), len(out['choices'])):
+            wd = out['widths'][i]
+            if wd < 2:
+                continue
+            cost = 1 if out['kinds'][i] == 'p' else 0
+            if used + cost > bound:
+                continue
+            if used == 0 and cost == 1 and i % CP_SPLIT != part:
+                continue
+            if used == 0 and cost == 0 and part != 0:
+                continue          # free choices (who starts, who goes on after an exit) are explored by part 0 only
+            for alt in range(1, wd):
+                stack.append((out['choices'][:i] + [alt], out['pids'][:i + 1], used + cost))
+    label = 'cold-process:%s part %d' % ('+'.join(kinds), part)
+    acc.outcome('cold-process-pair|bound%d' % bound, execs)
+    if capped:
+        acc.extra['cap_hit'] = 1
+        acc.extra.setdefault('capped_items', []).append(label)
+    else:
+        acc.extra.setdefault('completed_items', []).append(label)
+    acc.add('schedules', execs)
+    return execs
+
+
 def nshards(tier):
     return 32 if tier == 'quick' else 64
 
@@ -431,6 +537,17 @@ def shard(tier, i, n, seed):
             raise common.InternalError('scheduler: %s (threads %r bound %d)' % (e, kinds, bound))
         acc.sample({'threads': list(kinds), 'bound': bound, 'part': part, 'schedules': st['executions'],
                     'scheduling_points_max': st['points_max']})
+    cp_pairs = COLD_PROCESS_PAIRS[:1] if tier == 'quick' else COLD_PROCESS_PAIRS
+    cp_items = [(kinds, part) for kinds in cp_pairs for part in range(CP_SPLIT)]
+    for k, (kinds, part) in enumerate(cp_items):
+        if (k + 11) % n != i:
+            continue
+        if deadline_passed():
+            acc.extra['cap_hit'] = 1
+            acc.extra.setdefault('skipped_items', []).append('cold-process:%s part %d' % ('+'.join(kinds), part))
+            continue
+        ne = explore_cold_process(acc, kinds, 1, part)
+        acc.sample({'threads': list(kinds), 'bound': 1, 'cold_process': True, 'part': part, 'schedules': ne})
     for k, kinds in enumerate(COLD_PAIRS):
         if (k + 5) % n != i:
             continue
@@ -491,6 +608,7 @@ def finish(tier, merged, results):
         raise common.InternalError('vacuous: too few non-trivial schedules')
     return {'bounds': {'request_kinds': KINDS, 'pairs': 'all %d unordered pairs' % (len(KINDS) * (len(KINDS) + 1) // 2),
                        'cold_application_pairs': ['+'.join(p) for p in COLD_PAIRS],
+                       'cold_process_pairs': ['+'.join(p) for p in (COLD_PROCESS_PAIRS[:1] if tier == 'quick' else COLD_PROCESS_PAIRS)],
                        'extra_kinds': EXTRA_KINDS, 'extra_pairs_with_history': ['+'.join(p) for p in EXTRA_PAIRS],
                        'pair_preemption_bound': 1, 'pairs_at_preemption_bound_2': [] if tier == 'quick' else ['+'.join(p) for p in B2_PAIRS], 'triples': 5, 'triple_preemption_bound': 1,
                        'quadruples': 2, 'quadruple_preemption_bound': 0, 'granularity': 'bytecode instruction'},
@@ -510,6 +628,14 @@ def replay(case):
     common.setup_repo()
     w, _ = setup_world()
     kinds = case['kinds']
+    if case.get('cold_process'):
+        out = run_child(kinds, case['choices'], None, case.get('bound', 1))
+        toks = ['t%dq' % (i + 1) + 'xyz'[i % 3] for i in range(len(kinds))]
+        seq = [run_child([k], [], None, 0, [t])['results'][0] for k, t in zip(kinds, toks)]
+        for i, (r, sres) in enumerate(zip(out['results'], seq)):
+            if r != sres:
+                return False, 'thread %d (%s) got %s, alone %s' % (i, kinds[i], r[:300], sres[:300])
+        return True, 'ok'
     if case.get('cold'):
         acc = common.Acc()
         explore_cold(acc, tuple(kinds), case.get('bound', 1))
